@@ -1,7 +1,7 @@
 """C09 - typed request-header accessors agree with the RFC reading or answer 400."""
 PROP = 'C09'
-LEAN_MODULES = ['FalconModel.HeaderParsersProofs']
-DRIVERS = ['hpdriver']
+LEAN_MODULES = ['FalconModel.HeaderParsersProofs', 'FalconModel.ForwardedProofs', 'FalconModel.CookiesProofs']
+DRIVERS = ['hpdriver', 'fwdriver']
 THEOREMS = [
     'Hp.pyInt_toDigits', 'Hp.pyInt_nonneg_of_no_minus',
     'Hp.contentLength_digits', 'Hp.contentLength_ok_nonneg', 'Hp.contentLengthB_digits', 'Hp.contentLengthB_ok_nonneg',
@@ -10,6 +10,13 @@ THEOREMS = [
     'Hp.parseHost_bare', 'Hp.parseHost_name_port', 'Hp.parseHost_name_empty_port',
     'Hp.parseHost_ipv6_port', 'Hp.parseHost_ipv6_bare',
     'Hp.loads_dumps', 'Hp.parseEtags_single', 'Hp.parseEtags_list', 'Hp.parseEtags_star',
+    # Forwarded / access_route (Forwarded.lean, ForwardedProofs.lean)
+    'Fw.matchPair_render', 'Fw.unq3_eq_gen', 'Fw.unquoteString_quoted', 'Fw.procValue_render', 'Fw.parseGo_fuel',
+    'Fw.run_param', 'Fw.run_elem', 'Fw.forwarded_render_parse', 'Fw.elemOf_eq_rfc', 'Fw.forwarded_valid_eq_rfc',
+    'Fw.routeHost_node', 'Fw.finishRoute_last', 'Fw.finishRoute_append', 'Fw.finishRoute_nil_wsgi', 'Fw.accessRoute_valid', 'Fw.memo_idempotent',
+    # Cookie (Cookies.lean, CookiesProofs.lean)
+    'Ck.stepToken_render', 'Ck.parseCookieHeader_render', 'Ck.lookup_insertVal', 'Ck.cookie_valid_eq_rfc', 'Ck.cookies_first_value', 'Ck.cookies_has_name',
+    'Ck.cUnquote_plain', 'Ck.unq_oct', 'Ck.unquote_quote', 'Ck.cUnquote_quote',
 ]
 STATEMENTS = {
     'Hp.pyInt_toDigits': "Python int() of the decimal representation of n is n",
@@ -22,11 +29,27 @@ STATEMENTS = {
     'Hp.parseHost_name_port': "reg-name/IPv4 'name:port' (no ':' in name, not starting with '[') splits into name and the numeric port",
     'Hp.parseHost_ipv6_port': "'[addr]:port' (no ']' in addr) gives addr and the numeric port; without port the default",
     'Hp.loads_dumps': 'ETag.loads(ETag.dumps(t)) = t for every opaque tag without a double quote',
+    'Fw.matchPair_render': "the native scanner standing for _FORWARDED_PAIR_RE matches name=value (token name; token value or quoted-string with any mix of qdtext and quoted-pairs) exactly up to the end of the value, provided the next character is not a tchar",
+    'Fw.unq3_eq_gen': "the two fast paths of unquote_string (no backslash; no double backslash) return what the general split/replace/join path returns, for every string",
+    'Fw.unquoteString_quoted': "unquote_string of a quoted-string is the sequence of characters its positions denote (a quoted-pair denotes its second character), for every list of qdtext / quoted-pair positions",
+    'Fw.parseGo_fuel': "the element loop advances on every iteration: any two iteration budgets >= len(header) give the same result, so len(header) iterations model the unbounded while loop",
+    'Fw.forwarded_render_parse': "for every list of non-empty forwarded-elements built from the grammar (any token as parameter name, token or quoted-string values, optional blanks around pairs, ';' between pairs, ',' between elements) _parse_forwarded_header returns exactly one Forwarded object per element, in order, built pair by pair (repeated parameter: last wins)",
+    'Fw.forwarded_valid_eq_rfc': "if in addition the parameter names of each element are pairwise distinct case-insensitively (RFC 7239), src/dest/host are the un-escaped for/by/host values, scheme is the proto value in lower case, absent parameters are None and unknown parameters are ignored",
+    'Fw.routeHost_node': "for every node 'name', 'name:port', '[v6]' or '[v6]:port' whose port text is numeric, obfuscated or anything else without ':' and ']', the access-route entry is the bare name (port and brackets dropped), whether parse_host succeeds or the ValueError fallback runs",
+    'Fw.accessRoute_valid': "for a grammatical Forwarded header whose for values are such nodes, access_route is the list of node names in order (elements without for skipped) followed by remote_addr unless it equals the last entry; X-Forwarded-For / X-Real-IP are ignored; WSGI and ASGI",
+    'Fw.memo_idempotent': "the second access of access_route returns the first result, which is a fresh computation, and leaves the memo cell unchanged",
+    'Ck.parseCookieHeader_render': "for every cookie-string of valid pairs (token names, cookie-octet values bare or between DQUOTEs, any white space after ';') _parse_cookie_header enters every pair in order, quoted values without their DQUOTEs",
+    'Ck.cookie_valid_eq_rfc': "for such a cookie-string get_cookie_values(name) is the list of all values given for that name in header order, and None if the name does not occur",
+    'Ck.cookies_first_value': "req.cookies[name] is the first value given for the name",
+    'Ck.cookies_has_name': "the keys of req.cookies are exactly the names occurring in the header",
+    'Ck.unquote_quote': "for every Latin-1 string and every set of legal characters, http.cookies._unquote's scanner inverts _quote-style escaping (backslash before '\"' and '\\', three-digit octal escapes for the rest)",
     'Hp.parseEtags_list': "for a comma-separated list of two or more serialized entity-tags (opaque tags without '\"' or ','... see statement) _parse_etags returns exactly those tags with their weakness flags, in order",
 }
 TRUSTED = [
     "CPython int(): modelled on Latin-1 strings (strip, sign, ASCII digits, single underscores); strings of more than 4300 digits are excluded",
-    "re (entity-tag scanner, Forwarded pair regex), datetime.strptime/strftime (all HTTP-date forms), http.cookies-derived unquoting: not modelled - covered by the independent RFC-level oracle only",
+    "re for the entity-tag scanner and _FORWARDED_PAIR_RE (a deterministic pattern: no alternative overlaps), _COOKIE_NAME_RESERVED_CHARS, and CPython 3.12 http.cookies._unquote (its search loop) are replaced by native scanners in the models; their agreement with re/http.cookies is established by the correspondence only",
+    "datetime.strptime/strftime (all HTTP-date forms): not modelled - covered by the independent RFC-level oracle only",
+    "str.lower() is modelled on Latin-1 (A-Z and 0xC0-0xDE except 0xD7 move by 32)",
 ]
 ASSUMPTIONS = [
     'header values are Latin-1 strings (what WSGI/ASGI can deliver); suffix-length 0 ("bytes=-0") is outside the comparable domain: the (first, last) API cannot represent it and Falcon answers 400',
@@ -35,11 +58,13 @@ ASSUMPTIONS = [
 RULE = ('values generated from the ABNFs (Range, HTTP-date in three forms, entity-tag lists, cookie-string, Forwarded elements incl. quoted IPv6 and obfuscated node/port, '
         'Host authority forms) and from 1-2 character edits of valid values and of a hostile seed list; header names in random casing; WSGI and ASGI request objects; '
         'every accessor is read twice; non-trivial = at least one accessor returned a non-None value or a 400')
-PARTIAL = ('proved cores: Content-Length, Range/range_unit, parse_host (host/port), ETag loads/dumps and _parse_etags. Dates, cookies, Forwarded/access_route, '
-           'uri/prefix/relative_uri composition, subdomain and accept checks are decided by the independent RFC-level oracle and the exception-class / repeat-access checks only.')
+PARTIAL = ('proved cores: Content-Length, Range/range_unit, parse_host (host/port), ETag loads/dumps and _parse_etags, Forwarded (_parse_forwarded_header, unquote_string), '
+           'access_route (all three header sources modelled; the theorem covers the Forwarded source), Cookie (_parse_cookie_header, _unquote, cookies, get_cookie_values). Dates, '
+           'forwarded_scheme/forwarded_host, uri/prefix/relative_uri composition, subdomain and accept checks are decided by the independent RFC-level oracle and the exception-class / repeat-access checks only.')
 JOBS = {'quick': 4, 'thorough': 16}
-LEVEL_TEXT = ('Lean 4 theorems on the modelled accessor cores (Content-Length, Range, parse_host/host/port, entity tags): valid values read as the RFC says, invalid order is a 400, '
-              'every returned range has the documented shape; the models are tied to falcon/request.py, falcon/asgi/request.py, falcon/util/uri.py, falcon/util/structures.py and '
+LEVEL_TEXT = ('Lean 4 theorems on the modelled accessor cores (Content-Length, Range, parse_host/host/port, entity tags, Forwarded elements, access_route, cookies): valid values read as the RFC says '
+              '(every header built from the RFC 7239 / RFC 6265 grammars is parsed into exactly its elements / name->values mapping, by induction over the element and pair lists), invalid order is a 400, '
+              'every returned range has the documented shape; the models are tied to falcon/request.py, falcon/asgi/request.py, falcon/forwarded.py, falcon/util/uri.py, falcon/util/structures.py and '
               'falcon/request_helpers.py by a differential correspondence on both request classes. All listed accessors (incl. dates, cookies, Forwarded, URL composition) are additionally '
               'judged by an independent RFC-level oracle: valid input -> RFC value, repeated access stable, only 400-class errors. Partial: see PARTIAL in the evidence.')
 LEVEL_NOTE = 'Trusted: Lean kernel; CPython int()/re/strptime as described; the oracle parsers written from the RFCs.'
@@ -167,6 +192,23 @@ def run(ctx):
             elems.append(rnd.choice([';', '; ']).join(pairs) if rnd.random() < 0.9 else ';'.join(pairs)); exp.append(e)
         return rnd.choice([', ', ',']).join(elems), exp
 
+    def gen_ip():
+        return rnd.choice(['.'.join(str(rnd.randint(0, 255)) for _ in range(4)), '127.0.0.1', '2001:db8::1', 'unknown'])
+
+    def gen_xff():
+        ips = [gen_ip() for _ in range(rnd.randint(1, 3))]
+        return rnd.choice([', ', ',', ' ,\t']).join(ips), ips
+
+    def gen_cookie_esc():
+        """cookie pairs as old user agents send them: quoted values with backslash / octal escapes, odd spacing, repeated and bad names"""
+        pairs = []
+        for _ in range(rnd.randint(1, 4)):
+            name = rnd.choice(['a', 'b', 'SID', 'x-y', 'a b', 'n(', '', 'a'])
+            body = ''.join(rnd.choice(['x', '1', ' ', ',', '\\"', '\\\\', '\\101', '\\3', '\\377', '\\400', '\\;', '\\n', '\\\n', '\\', '"', '=']) for _ in range(rnd.randint(0, 5)))
+            val = rnd.choice(['"' + body + '"', '"' + body + '"', body, '""', '"'])
+            pairs.append(rnd.choice(['', ' ', '  ']) + name + rnd.choice(['=', '=', ' = ', '']) + val)
+        return rnd.choice([';', '; ', ' ;']).join(pairs)
+
     MTYPES = ['application/json', 'application/xml', 'text/html', 'text/plain', 'application/x-msgpack', 'image/png']
 
     def gen_accept():
@@ -211,7 +253,8 @@ def run(ctx):
         'If-Modified-Since': ['garbage', 'Sun, 06 Nov 1994 08:49:37 UTC', 'Sun, 32 Nov 1994 08:49:37 GMT', 'Sun, 06 Nov 10000 08:49:37 GMT', '', 'Sun, 06 Nov 1994 24:00:00 GMT', 'Sun, 06 Nov 1994 08:49:37 EST'],
         'Cookie': ['a=1; a=2', 'a="q\\"x"; b', '=x;;', 'a="\\101\\"";b="\\9"', 'a="', '\xe9=1', 'a=\xe9', 'a==;=', 'a="\\"', 'a=1;;b=2', 'a'],
         'Forwarded': ['garbage;;,', 'for="[::1"', 'for=1.2.3.4:65536', 'for="a\\"b"', 'for=;', 'for="1.2.3.4:"', 'for=unknown, for=_hidden', 'for', '=', 'for="', 'for=a;;by=b'],
-        'X-Forwarded-For': ['1.1.1.1, 2.2.2.2', '', ', ,'],
+        'X-Forwarded-For': ['1.1.1.1, 2.2.2.2', '', ', ,', ' 10.0.0.1 ,\t127.0.0.1'],
+        'X-Real-IP': ['9.9.9.9', '', ' 127.0.0.1'],
         'X-Forwarded-Proto': ['HTTPS', ''],
         'X-Forwarded-Host': ['fh.example', 'a:b'],
         'Accept': ['*/*', 'text/html;q=0.5', 'a/b;q=x', 'a', '/', ';', 'a/b;q="1"', 'a/b;"', '\\', 'application/json;q=0'],
@@ -233,18 +276,20 @@ def run(ctx):
         return rnd.choice([n, n.lower(), n.upper(), ''.join(rnd.choice([c.lower(), c.upper()]) for c in n)])
 
     # ------------------------------------------------------------ request construction (no value stripping: build env/scope directly)
-    def mk_wsgi(headers, scheme='http'):
+    def mk_wsgi(headers, scheme='http', remote=None):
         env = ft.create_environ(path='/p/q', query_string='x=1', scheme=scheme, host='srv.example', port=8000 if scheme == 'http' else 8443)
         env.pop('HTTP_HOST', None)
+        if remote is not None: env['REMOTE_ADDR'] = remote
         for n, v in headers:
             key = n.upper().replace('-', '_')
             if key in ('CONTENT_LENGTH', 'CONTENT_TYPE'): env[key] = v
             else: env['HTTP_' + key] = v
         return falcon.Request(env)
 
-    def mk_asgi(headers, scheme='http'):
+    def mk_asgi(headers, scheme='http', remote=None):
         scope = ft.create_scope(path='/p/q', query_string='x=1', scheme=scheme, host='srv.example', port=8000 if scheme == 'http' else 8443)
         scope['headers'] = [(n.lower().encode('latin-1'), v.encode('latin-1')) for n, v in headers]
+        if remote is not None: scope['client'] = (remote, 4711)
 
         async def receive():
             return {'type': 'http.request'}
@@ -265,8 +310,37 @@ def run(ctx):
 
     sess = ctx.session('request accessors / uri.parse_host / ETag = Hp model', 'hpdriver')
 
+    sess2 = ctx.session('forwarded / access_route / cookies / get_cookie_values = Fw, Ck models', 'fwdriver')
+
     def show_opt(v):
         return 'none' if v is None else hs(v)
+
+    def rd_els(els):  # list of (src, dest, host, scheme)
+        return 'els' + ''.join(' ' + '|'.join(show_opt(x) for x in e) for e in els)
+
+    def rd_route(route):
+        return 'route' + ''.join(' ' + hs(h) for h in route)
+
+    def rd_jar(jar):
+        return 'jar' + ''.join(' ' + hs(n) + '=' + ','.join(hs(v) for v in vs) for n, vs in jar.items())
+
+    def fw_ops(req, stack, hv, obs, obs2):
+        """model ops for one request object: forwarded, access_route (both accesses), cookies, get_cookie_values"""
+        fv = hv.get('forwarded'); xf = hv.get('x-forwarded-for'); xr = hv.get('x-real-ip'); ck = hv.get('cookie')
+        if obs['forwarded'][0] == 'ok' and fv is not None:
+            sess2.op(f'forwarded {hs(fv)}', rd_els(obs['forwarded'][1]))
+        if obs['access_route'][0] == 'ok' and obs2['access_route'][0] == 'ok' and obs['remote_addr'][0] == 'ok':
+            sess2.op(f'route2 {1 if stack == "asgi" else 0} {show_opt(fv)} {show_opt(xf)} {show_opt(xr)} {hs(obs["remote_addr"][1])}',
+                     rd_route(obs['access_route'][1]) + ' / ' + rd_route(obs2['access_route'][1]))
+        if obs['cookies'][0] == 'ok':
+            ckd = obs['cookies'][1]
+            sess2.op(f'cookies {show_opt(ck)}', 'ck' + ''.join(' ' + hs(n) + '=' + hs(v) for n, v in ckd.items()))
+            for nm in list(ckd)[:3] + ['zz']:
+                try:
+                    vals = req.get_cookie_values(nm); e = 'none' if vals is None else 'vals' + ''.join(' ' + hs(v) for v in vals)
+                except Exception as ex:  # noqa
+                    e = 'EXC ' + type(ex).__name__
+                sess2.op(f'cvals {show_opt(ck)} {hs(nm)}', e)
 
     def rd_cl(r):
         return 'bad' if r[0] == 'http' else ('absent' if r[1] is None else f'ok {r[1]}')
@@ -288,7 +362,7 @@ def run(ctx):
         stack = rnd.choice(['wsgi', 'asgi'])
         scheme = rnd.choice(['http', 'https'])
         headers = []; expect = {}
-        kinds = rnd.sample(['range', 'date', 'etag', 'cookie', 'forwarded', 'host', 'cl', 'accept'], rnd.randint(1, 4))
+        kinds = rnd.sample(['range', 'date', 'etag', 'cookie', 'forwarded', 'host', 'cl', 'accept', 'xff', 'xri'], rnd.randint(1, 4))
         if mode == 'hostile':
             names = rnd.sample(list(HOSTILE), rnd.randint(1, 4))
             headers = [(casing(n), mutate(rnd.choice(HOSTILE[n])) if rnd.random() < 0.5 else rnd.choice(HOSTILE[n])) for n in names]
@@ -310,6 +384,10 @@ def run(ctx):
                     v, h, p = gen_host(); headers.append((casing('Host'), v)); expect['host'] = h; expect['port'] = p if p is not None else (443 if scheme == 'https' else 80)
                 elif k == 'accept':
                     v, ranges = gen_accept(); headers.append((casing('Accept'), v)); expect['accept_ranges'] = ranges
+                elif k == 'xff':
+                    v, ips = gen_xff(); headers.append((casing('X-Forwarded-For'), v)); expect['xff'] = ips
+                elif k == 'xri':
+                    v = gen_ip(); headers.append((casing('X-Real-IP'), v)); expect['xri'] = v
                 else:
                     v = num(9); headers.append((casing('Content-Length'), v)); expect['content_length'] = int(v)
             if mode == 'mutated':
@@ -323,10 +401,10 @@ def run(ctx):
         req = mk_wsgi(headers, scheme) if stack == 'wsgi' else mk_asgi(headers, scheme)
         hv = {n.lower(): v for n, v in headers}
         failed = None; nontriv = False
-        obs = {}
+        obs = {}; obs2 = {}
         for a in ATTRS:
             r1 = read(req, a); r2 = read(req, a)
-            obs[a] = r1
+            obs[a] = r1; obs2[a] = r2
             if r1[0] == 'EXC':
                 failed = failed or f'req.{a} raised {r1[1]} (not a 400-class HTTP error)'
             elif r1[0] == 'http' and not (400 <= r1[1] < 500):
@@ -389,6 +467,12 @@ def run(ctx):
                     ra = obs['remote_addr'][1]
                     want_route = (route + [ra]) if (route and route[-1] != ra) else (route or [ra])
                     if obs['access_route'] != ('ok', want_route): failed = failed or f'access_route for {hv["forwarded"]!r} is {obs["access_route"]!r}, expected {want_route!r}'
+                elif a in ('xff', 'xri'):
+                    if 'forwarded' in expect or (a == 'xri' and 'xff' in expect): continue
+                    base = exp if a == 'xff' else [exp]
+                    ra = obs['remote_addr'][1]
+                    want_route = base if base[-1] == ra else base + [ra]
+                    if obs['access_route'] != ('ok', want_route): failed = failed or f'access_route for {hv} is {obs["access_route"]!r}, expected {want_route!r}'
                 else:
                     if r != ('ok', exp): failed = failed or f'{a} for {hv}: {r!r}, RFC reading {exp!r}'
         ctx.oracle('accessors: RFC value on valid input, stable on repeat, only 400-class errors, case-insensitive lookup',
@@ -415,6 +499,70 @@ def run(ctx):
             except ValueError:
                 e = 'valueError'
             sess.op(f'phost {hs(hov)} {"none" if d is None else d}', e)
+        sess2.case({'stack': stack, 'headers': headers})
+        fw_ops(req, stack, hv, obs, obs2)
+    # ---- Forwarded / access_route / Cookie: the parsing functions directly, and access_route with all header sources and remote addresses
+    import http.cookies as hcookies
+    from falcon.forwarded import _parse_forwarded_header
+    for _ in range(ctx.n(1500, 15000)):
+        k = rnd.random(); fexp = None
+        if k < 0.3: v, fexp = gen_forwarded()
+        elif k < 0.45: v, _p = gen_cookie()
+        elif k < 0.65: v = gen_cookie_esc()
+        elif k < 0.8: v = rnd.choice(HOSTILE['Forwarded'] + HOSTILE['Cookie'])
+        else: v = ''.join(rnd.choice('for=by;, \t"\\host=proto=HTTPS~a1_:[]\n\x00\xe9\xc007013') for _ in range(rnd.randint(0, 14)))
+        if rnd.random() < 0.45:
+            fexp = None
+            for _m in range(rnd.randint(1, 2)): v = mutate(v)
+        v = ''.join(c for c in v if ord(c) < 256)
+        sess2.case({'value': v})
+        sess2.op(f'forwarded {hs(v)}', rd_els([(f.src, f.dest, f.host, f.scheme) for f in _parse_forwarded_header(v)]))
+        sess2.op(f'unquote {hs(v)}', hs(furi.unquote_string(v)))
+        sess2.op(f'cunquote {hs(v)}', hs(hcookies._unquote(v)))
+        sess2.op(f'jar {hs(v)}', rd_jar(rh._parse_cookie_header(v) if v else {}))
+        q = '"' + ''.join(rnd.choice(['a', '~', ' ', '\\\\', '\\"', '\\a', '\\', ',', ';']) for _ in range(rnd.randint(0, 6))) + '"'
+        sess2.op(f'unquote {hs(q)}', hs(furi.unquote_string(q)))
+        sess2.op(f'cunquote {hs(q)}', hs(hcookies._unquote(q)))
+        # DQUOTE handling is uniform: the empty quoted value is treated like every other quoted value
+        qv = ''.join(rnd.choice(COOKIE_OCTET) for _ in range(rnd.randint(1, 4)))
+        ch = rnd.choice(['e=""; f="%s"', 'f="%s"; e=""', 'f="%s";e=""']) % qv
+        rq = mk_wsgi([('Cookie', ch)]) if rnd.random() < 0.5 else mk_asgi([('Cookie', ch)])
+        cr = read(rq, 'cookies')
+        ok = cr[0] == 'ok' and ((cr[1].get('e'), cr[1].get('f')) in (('', qv), ('""', '"' + qv + '"')))
+        ctx.oracle('cookies: a quoted value is read the same way whether it is empty or not (DQUOTEs either always or never part of the value)', ok,
+                   None if ok else f'Cookie {ch!r} read as {cr!r}', {'cookie': ch})
+        # access_route: Forwarded / X-Forwarded-For / X-Real-IP present or not, remote address sometimes equal to the last hop
+        stack = rnd.choice(['wsgi', 'asgi']); hdrs = []; want = None
+        if rnd.random() < 0.6: hdrs.append((casing('Forwarded'), v))
+        xff = xri = None
+        if rnd.random() < 0.5:
+            if rnd.random() < 0.7: xff, ips = gen_xff()
+            else: xff = rnd.choice(HOSTILE['X-Forwarded-For']); ips = [x.strip() for x in xff.split(',')]
+            hdrs.append((casing('X-Forwarded-For'), xff))
+        if rnd.random() < 0.4:
+            xri = gen_ip() if rnd.random() < 0.7 else rnd.choice(HOSTILE['X-Real-IP']); hdrs.append((casing('X-Real-IP'), xri))
+        if hdrs and hdrs[0][0].lower() == 'forwarded':
+            if fexp is not None: want = [e['srchost'] for e in fexp if e['src'] is not None]
+        elif xff is not None: want = ips
+        elif xri is not None: want = [xri]
+        else: want = []
+        cands = ['127.0.0.1', '10.1.2.3', '::1'] + ([want[-1]] * 3 if want else [])
+        if stack == 'asgi' and rnd.random() < 0.03: cands = ['']
+        remote = rnd.choice(cands)
+        req = mk_wsgi(hdrs, remote=remote) if stack == 'wsgi' else mk_asgi(hdrs, remote=remote)
+        r1 = read(req, 'access_route'); r2 = read(req, 'access_route')
+        hv = {n.lower(): x for n, x in hdrs}
+        ok = r1[0] == 'ok' and r1 == r2; what = None
+        if not ok: what = f'access_route gave {r1!r} then {r2!r}'
+        elif want is not None:
+            want_route = (want if want[-1] == remote else want + [remote]) if want else ([remote] if remote else [])
+            if r1[1] != want_route: ok = False; what = f'access_route is {r1[1]!r}, expected the hops {want!r} then remote_addr {remote!r} unless equal to the last: {want_route!r}'
+        ctx.oracle('access_route: hops of the first present header among Forwarded / X-Forwarded-For / X-Real-IP, then remote_addr unless equal to the last; stable; no exception',
+                   ok, what, {'stack': stack, 'headers': hdrs, 'remote_addr': remote})
+        if r1[0] == 'ok' and r2[0] == 'ok':
+            sess2.op(f'route2 {1 if stack == "asgi" else 0} {show_opt(hv.get("forwarded"))} {show_opt(xff)} {show_opt(xri)} {hs(remote)}', rd_route(r1[1]) + ' / ' + rd_route(r2[1]))
+        ctx.seen(('route', stack, tuple(hdrs), remote, v), True)
+        ctx.count('route_' + ('forwarded' if 'forwarded' in hv else 'xff' if xff is not None else 'xri' if xri is not None else 'none'))
     # ---- direct ETag / _parse_etags / response->request read-back
     for _ in range(ctx.n(1500, 15000)):
         v, tags = gen_etags()
@@ -439,3 +587,4 @@ def run(ctx):
                    None if ok else f'wrote last_modified={dt.isoformat()} etag={(val, wk)!r}; headers {hd!r}; read back {back_dt!r} {back_tag!r}', {'date': dt.isoformat(), 'etag': val, 'weak': wk})
         ctx.seen(('etag', v, val, wk), True)
     sess.finish()
+    sess2.finish()
